@@ -393,7 +393,8 @@ def quiescentStream (w : WSt) (sid : Nat) (recvWindow sendWindow : Int) (recvHan
       --  noted finding F3, not judged here)
       (if recvHandleLive ∧ ¬ s.rxEnd ∧ (s.rxHeaders > 0 ∨ s.txHeaders > 0) ∧ s.recvAdvert ≠ recvWindow then
         [s!"C03 stream-receive-window-on-the-wire({s.recvAdvert})-differs-from-the-endpoints-account({recvWindow})"] else []) ++
-      (if ¬ s.txEnd ∧ (s.rxHeaders > 0 ∨ s.txHeaders > 0) ∧ s.sendCredit ≠ sendWindow then
+      -- (nothing is ever sent on a stream the peer pushed: its send window is not kept)
+      (if ¬ s.reservedByPeer ∧ ¬ s.txEnd ∧ (s.rxHeaders > 0 ∨ s.txHeaders > 0) ∧ s.sendCredit ≠ sendWindow then
         [s!"C02 stream-send-window-on-the-wire({s.sendCredit})-differs-from-the-endpoints-account({sendWindow})"] else [])
 
 /-- C15: the connection future completed although the transport neither failed nor reached EOF: the endpoint
